@@ -31,21 +31,21 @@ CHECKS = {
         design="DESIGN.md §5 C03",
         technique="Coq proof (sorting + first-match lemmas, per-method walk theorems) + rule-text correspondence + packet-walk oracle on emitted rules"),
     "C10": dict(
-        text=("32 theorems over all event sequences of the datagram state machines (Props/C10.v): query relayed verbatim on a fresh "
+        text=("33 theorems over all event sequences of the datagram state machines (Props/C10.v): query relayed verbatim on a fresh "
               "identifier, resolver target and at most 3 attempts with retry only after NET_ERRS, first reply relayed once and handler retired, "
               "reply to the recorded asker from the recorded destination, at most one datagram per query over whole runs, exact lazy expiry, "
               "no exception for any socket outcome or identifier exhaustion; WHOLE SERVER: an invariant relating handlers, dnshandlers, udphandlers and mux.channels holds in every reachable state of the real loop structure, "
               "and the server loop can only raise AssertionError / ValueError / OverflowError, each for a cause readable off the peer's message (c10_server_crash_classified), never for a conforming peer (c10_server_no_crash_conforming, c10_server_no_crash_full); "
               "COMPOSED client+server over two FIFO links: under no-stale-allocation a reply only ever reaches the asker of its own query (c10_no_cross_composed), refuted without the hypothesis (MAX_CHANNEL=1 witness, replayed on the real code). Tied to /repo by running the real client ondns/dns_done/"
               "expire_connections and the real server.main loop with DnsProxy on scripted sockets and a virtual clock, every step compared; implementation-only oracles on random composed schedules (cross-delivery, reply lost before 30 s) with one virtual clock serving time.time and time.monotonic from different epochs."),
-        note="modelled not verified: UDP socket semantics, getaddrinfo, CPython dict ordering. The composed system is checked on the real code, not extracted; a mixed DNS+UDP end-to-end no-crash theorem is missing.",
+        note="modelled not verified: UDP socket semantics, getaddrinfo, CPython dict ordering. The composed client+server system is extracted (Model/DgramSys.v) and compared step by step with the real composition; c10_system_never_raises: in mixed DNS/UDP/TCP-accept runs neither side raises under the single hypothesis no_stale_alloc_any (DNS-only runs need none).",
         design="DESIGN.md §5 C10",
         technique="Coq proof (invariants over event sequences of an executable state machine with virtual time) + step-by-step differential correspondence"),
     "C11": dict(
-        text=("21 theorems (Props/C11.v): header round trip for every address text, port and payload incl. commas, one captured datagram = "
+        text=("28 theorems (Props/C11.v): header round trip for every address text, port and payload incl. commas, one captured datagram = "
               "one sendto with identical payload to the dialled address on the association's single socket, replies delivered once to the source, "
               "shared channel per source with deadline refresh, idle expiry closing both ends and a fresh identifier afterwards, frame size bound, "
-              "no exception for any socket outcome; the whole server never raises for UDP scripts of a conforming client (c11_server_no_crash_full; the bound ch <= 65535 is a wire-format fact: c11_server_unbounded_channel_refuted). Same correspondence harness as C10 with the real tproxy recv_udp/send_udp on scripted cmsg data."),
+              "no exception for any socket outcome; the whole server never raises for UDP scripts of a conforming client (c11_server_no_crash_full; the bound ch <= 65535 is a wire-format fact: c11_server_unbounded_channel_refuted); END TO END: every frame sequence the client emits satisfies the server's preconditions (c11_client_frames_conform), so along every run of the composed system — any mix of DNS, UDP and TCP-accept events, any schedule, socket outcome and time — the SERVER never raises nor leaves through Fatal (c11_system_server_never_raises, c11_server_never_fatal; this found and needed the repair of F80), and under no_stale_alloc_any neither side does (c11_system_never_raises); without it a late reply on a reassigned identifier kills the client (c11_system_stale_crash_refuted = known finding F81). Same correspondence harness as C10 with the real tproxy recv_udp/send_udp on scripted cmsg data."),
         note="modelled not verified: UDP socket semantics, tproxy transparent bind; same address-family constants on both ends is an assumption.",
         design="DESIGN.md §5 C11",
         technique="Coq proof (codec round trip + state-machine invariants) + step-by-step differential correspondence"),
